@@ -310,3 +310,49 @@ func normSlice(v ssa.Value, base ssa.Value) (lo, hi Aff, hiOpen, ok bool) {
 	}
 	return lo, h0, open0, true
 }
+
+// sliceLenAff: len(X[lo:hi]) as a symbolic affine form hi − lo; an open upper end is len(X), named by the first len call
+// on X in the function (the symbol symAff uses for every other len(X)).
+func sliceLenAff(sl *ssa.Slice) (Aff, bool) {
+	if _, isArr := sl.X.Type().Underlying().(*types.Pointer); isArr {
+		return Aff{}, false
+	}
+	lo := affConst(0)
+	if sl.Low != nil {
+		lo = symAff(sl.Low, 0)
+	}
+	if sl.High != nil {
+		return symAff(sl.High, 0).add(lo, -1), true
+	}
+	var canon ssa.Value
+	if refs := sl.X.Referrers(); refs != nil {
+		for _, r := range *refs {
+			if lc, isC := r.(*ssa.Call); isC && calleeName(&lc.Call) == "builtin.len" && lc.Call.Args[0] == sl.X {
+				if canon == nil || lc.Pos() < canon.Pos() {
+					canon = lc
+				}
+			}
+		}
+	}
+	if canon == nil {
+		return Aff{}, false
+	}
+	return affSym(canon).add(lo, -1), true
+}
+
+func affSame(a, b Aff) bool {
+	if a.C != b.C {
+		return false
+	}
+	for s, k := range a.Terms {
+		if k != 0 && b.Terms[s] != k {
+			return false
+		}
+	}
+	for s, k := range b.Terms {
+		if k != 0 && a.Terms[s] != k {
+			return false
+		}
+	}
+	return true
+}
